@@ -32,6 +32,7 @@ ElemCliff(r, t) ==  \* the same with the cliff flag of the rule under test
 NeededNoCliff(r) == UNION {Range(Elem(r, r.targets[j])) : j \in 1..Len(r.targets)}
 NeededCliff(r) == UNION {Range(ElemCliff(r, r.targets[j])) : j \in 1..Len(r.targets)}
 IdsOf(r, h) == {r.ids[q].id : q \in {q \in 1..Len(r.ids) : NoCliff(r.ids[q].hdr) = h}}
+IdsOfFull(r, h) == {r.ids[q].id : q \in {q \in 1..Len(r.ids) : r.ids[q].hdr = h}}   \* h with its cliff flag
 Targets(r) == {[kind |-> "T", scale |-> r.targets[j][1], nf |-> r.targets[j][2]] : j \in 1..Len(r.targets)}
 
 WordOk(r, j) ==
@@ -40,6 +41,8 @@ WordOk(r, j) ==
   /\ w.ok
   /\ Len(w.word) = Len(el)
   /\ \A q \in 1..Len(el) : w.word[q] \in IdsOf(r, el[Len(el) + 1 - q])
+  (* and it is the part the path itself asked for (final and intermediate versions of one segment are two parts) *)
+  /\ \A q \in 1..Len(el) : w.word[q] \in IdsOfFull(r, r.retrieves[j][Len(el) + 1 - q])
 
 Verdict(r) ==
   IF r.err # "" THEN "C02:solve-raised:" \o r.err
@@ -51,6 +54,8 @@ Verdict(r) ==
   ELSE IF \E j \in 1..Len(r.targets) :
             [q \in 1..Len(r.retrieves[j]) |-> NoCliff(r.retrieves[j][q])] # Elem(r, r.targets[j])
        THEN "C02:retrieved-parts-differ-from-path"
+  ELSE IF \E j \in 1..Len(r.targets) : \E q \in 1..Len(r.retrieves[j]) : r.retrieves[j][q] \notin Range(r.calls)
+       THEN "C02:retrieved-part-was-never-computed"
   ELSE IF \E j \in 1..Len(r.targets) : ~WordOk(r, j) THEN "C02:stored-operator-is-not-the-ordered-product"
   ELSE IF Range(r.arcOps) # Targets(r) THEN "C02:stored-operators-differ-from-targets"
   ELSE IF Range(r.calls) # NeededCliff(r) THEN "CONF:cliff-flags-differ-from-rule"
